@@ -46,7 +46,11 @@ class Scripted(np.random.RandomState):
 
 
 def tv_float(v):
-    return {'pinf': np.inf, 'ninf': -np.inf, 'nan': np.nan}.get(v, v * LN2 if not isinstance(v, str) else None)
+    if v == 'nan':
+        return float(np.float64(np.inf) - np.float64(np.inf))      # a COMPUTED nan (a fresh object each time), as a log of a negative number would be
+    if v == 'ninf':
+        return float(-np.exp(np.float64(800.0)))                  # a computed -inf
+    return {'pinf': np.inf}.get(v, v * LN2 if not isinstance(v, str) else None)
 
 
 def lattice_case(rng):
@@ -109,7 +113,8 @@ TARGETS = {
     'gauss': lambda x: -0.5 * float(np.sum(x ** 2)),
     'box': lambda x: -0.5 * float(np.sum(x ** 2)) if np.all(np.abs(x) < 1.0) else -np.inf,
     'halfline': lambda x: -float(np.sum(x)) if np.all(x > 0) else -np.inf,
-    'nanpocket': lambda x: (np.nan if 0.5 < x[0] < 0.8 else -0.5 * float(np.sum(x ** 2))),
+    'nanpocket': lambda x: (float(np.log(np.float64(-1.0))) if 0.5 < x[0] < 0.8 else -0.5 * float(np.sum(x ** 2))),     # computed nan
+    'gamma': lambda x: float(np.sum(np.log(np.asarray(x, dtype=float)) - x)),      # Gamma(2,1) per coordinate: nan (log of a negative number) outside the support
 }
 
 
